@@ -39,6 +39,28 @@ theorem nodeId_setN (g : MG) (t : RT) (k : Nat) : (g.setN t k).nodeId = g.nodeId
 theorem opOf_setN (g : MG) (t : RT) (k : Nat) : (g.setN t k).opOf = g.opOf := by
   funext n; unfold MG.opOf; rw [nodes_setN]
 
+/-! ## operation nodes and input/output nodes of a node list -/
+
+def gateOfEntry (p : Nd × NOp) : Option Op :=
+  match p.2 with
+  | .gate o => some o
+  | _ => none
+
+/-- the operations carried by the operation nodes, in node order -/
+def gateOpsOf (ns : List (Nd × NOp)) : List Op := ns.filterMap gateOfEntry
+
+/-- the input / output nodes -/
+def ioOf (ns : List (Nd × NOp)) : List (Nd × NOp) := ns.filter fun p => (gateOfEntry p).isNone
+
+theorem length_io_gate (ns : List (Nd × NOp)) : ns.length = (ioOf ns).length + (gateOpsOf ns).length := by
+  induction ns with
+  | nil => rfl
+  | cons a rest ih =>
+    unfold ioOf gateOpsOf at ih ⊢
+    cases h : gateOfEntry a with
+    | none => simp [List.filter_cons, List.filterMap_cons, h, ih]; omega
+    | some o => simp [List.filter_cons, List.filterMap_cons, h, ih]; omega
+
 /-! ## the empty circuit -/
 
 structure InitInv (g : MG) (W : List Wire) : Prop where
@@ -48,6 +70,8 @@ structure InitInv (g : MG) (W : List Wire) : Prop where
   nodeId : g.nodeId = 0
   count : g.nodes.length = 2 * W.length
   names : (g.nodes.map (·.1)).Nodup
+  noGates : gateOpsOf g.nodes = []
+  trips : TripNodup g
 
 /-- the graph after `_add_reg_if_absent` of the next register of type `w.t` -/
 def addedReg (g : MG) (w : Wire) : MG :=
@@ -135,7 +159,7 @@ theorem InitInv.addReg {g : MG} {W : List Wire} (h : InitInv g W) (w : Wire) (hw
         exact hin hh
     simp only [h2, Bool.false_eq_true, if_false, gt_iff_lt, Nat.lt_irrefl]
     rfl
-  · refine ⟨⟨?_, ?_, ?_, ?_, ?_, ?_, ?_, ?_, ?_, ?_⟩, ?_, ?_, ?_, ?_, ?_⟩
+  · refine ⟨⟨?_, ?_, ?_, ?_, ?_, ?_, ?_, ?_, ?_, ?_⟩, ?_, ?_, ?_, ?_, ?_, ?_, ?_⟩
     · intro w' _
       rw [path_empty]
       simp
@@ -234,6 +258,24 @@ theorem InitInv.addReg {g : MG} {W : List Wire} (h : InitInv g W) (w : Wire) (hw
       rcases hb with rfl | rfl
       · exact hin ha
       · exact hout ha
+    · rw [hnodes]
+      unfold gateOpsOf
+      rw [List.filterMap_append]
+      have := h.noGates
+      unfold gateOpsOf at this
+      rw [this]
+      rfl
+    · unfold TripNodup
+      rw [edges_addedReg, List.map_append, List.nodup_append]
+      refine ⟨h.trips, by simp, ?_⟩
+      intro a ha b hb hab
+      obtain ⟨e0, he0, rfl⟩ := List.mem_map.1 ha
+      simp only [List.map_cons, List.map_nil, List.mem_singleton] at hb
+      subst hb
+      simp only [trip, Prod.mk.injEq] at hab
+      apply hwW
+      rw [← hab.2.2]
+      exact (h.rep.edge_sound0 e0 he0).1
 
 /-- the loop over one register type of `CircuitDAG.__init__` -/
 def addAllRegs (g : MG) (t : RT) (n : Nat) : MG :=
@@ -266,7 +308,7 @@ theorem InitInv.addAll {g : MG} {W : List Wire} (h : InitInv g W) (t : RT) (h0 :
       exact hother t' ht'
 
 theorem initInv_empty : InitInv {} [] := by
-  refine ⟨⟨?_, ?_, ?_, ?_, ?_, ?_, ?_, ?_, ?_, ?_⟩, ?_, ?_, rfl, rfl, List.nodup_nil⟩
+  refine ⟨⟨?_, ?_, ?_, ?_, ?_, ?_, ?_, ?_, ?_, ?_⟩, ?_, ?_, rfl, rfl, List.nodup_nil, rfl, List.nodup_nil⟩
   · intro w hw; cases hw
   · intro w hw; cases hw
   · intro w hw; cases hw
@@ -308,26 +350,41 @@ theorem initInv_init (ne np nc : Nat) :
 /-- the operation acts on existing, pairwise different registers -/
 def OpOK (W : List Wire) (o : Op) : Prop := (∀ w ∈ opWires o, w ∈ W) ∧ (opWires o).Nodup
 
+/-- the operation nodes on register `w` of the DAG built from `l`: the `k`-th operation is node `k + 1` -/
+def bodyOf (l : List Op) (w : Wire) : List Nd :=
+  (l.zipIdx.filter (fun p => decide (w ∈ opWires p.1))).map (fun p => Nd.op (p.2 + 1))
+
+theorem bodyOf_append (l : List Op) (o : Op) (w : Wire) :
+    bodyOf (l ++ [o]) w = bodyOf l w ++ (if w ∈ opWires o then [Nd.op (l.length + 1)] else []) := by
+  unfold bodyOf
+  rw [List.zipIdx_append, List.filter_append, List.map_append]
+  congr 1
+  by_cases h : w ∈ opWires o
+  · simp [List.zipIdx, h]
+  · simp [List.zipIdx, h]
+
 /-- the graph is a family of register paths over the registers `W`, every register exists, node ids are bounded by the
     counter, and the operations along the path of `w` are the operations of `l` that touch `w` -/
 def BuildInv (W : List Wire) (g : MG) (l : List Op) : Prop :=
   ∃ body, Rep0 g W body ∧ (∀ w ∈ W, RegOK g w) ∧ (∀ n ∈ g.nodes.map (·.1), ∀ k, n = .op k → k ≤ g.nodeId) ∧
     (∀ w ∈ W, wireOps g body w = l.filter (touches w)) ∧
     (∀ n o, g.opOf n = some (.gate o) → ∀ w' ∈ opWires o, w' ∈ W ∧ n ∈ body w') ∧
-    (g.nodes.map (·.1)).Nodup
+    (g.nodes.map (·.1)).Nodup ∧ gateOpsOf g.nodes = l ∧ (ioOf g.nodes).length = 2 * W.length ∧
+    g.nodeId = l.length ∧ (∀ w, body w = bodyOf l w) ∧
+    (∀ k (hk : k < l.length), g.opOf (.op (k + 1)) = some (.gate l[k])) ∧ TripNodup g
 
 theorem nOf_eq_of_counts (g g' : MG) (h1 : g'.ne = g.ne) (h2 : g'.np = g.np) (h3 : g'.nc = g.nc) (t : RT) :
     g'.nOf t = g.nOf t := by cases t <;> simp [MG.nOf, h1, h2, h3]
 
 theorem BuildInv.add {W : List Wire} {g : MG} {l : List Op} (h : BuildInv W g l) (o : Op) (ho : OpOK W o) :
     ∃ g', g.add o = .ok g' ∧ BuildInv W g' (l ++ [o]) ∧ g'.ne = g.ne ∧ g'.np = g.np ∧ g'.nc = g.nc := by
-  obtain ⟨body, r, hreg, hid, hops, hcomp, hcount⟩ := h
-  obtain ⟨g', body', hadd, r', hb', hnodes, hnid, h1, h2, h3⟩ := r.add o ho.1 ho.2 hreg hid
+  obtain ⟨body, r, hreg, hid, hops, hcomp, hcount, hgl, hio, hnl, hbo, hat, htn⟩ := h
+  obtain ⟨g', body', hadd, r', hb', hnodes, hnid, h1, h2, h3, htn'⟩ := r.add o ho.1 ho.2 hreg hid htn
   have hfreshN : Nd.op (g.nodeId + 1) ∉ g.nodes.map (·.1) := by
     intro hm
     have := hid _ hm (g.nodeId + 1) rfl
     omega
-  refine ⟨g', hadd, ⟨body', r', ?_, ?_, ?_, ?_, ?_⟩, h1, h2, h3⟩
+  refine ⟨g', hadd, ⟨body', r', ?_, ?_, ?_, ?_, ?_, ?_, ?_, ?_, ?_, ?_, htn'⟩, h1, h2, h3⟩
   · intro w hw
     obtain ⟨a, b⟩ := hreg w hw
     refine ⟨by rw [nOf_eq_of_counts g g' h1 h2 h3]; exact a, ?_⟩
@@ -390,6 +447,30 @@ theorem BuildInv.add {W : List Wire} {g : MG} {l : List Op} (h : BuildInv W g l)
     simp only [List.map_cons, List.map_nil, List.mem_singleton] at hb
     subst hab hb
     exact hfreshN ha
+  · rw [hnodes]
+    unfold gateOpsOf at hgl ⊢
+    rw [List.filterMap_append, hgl]
+    rfl
+  · rw [hnodes]
+    unfold ioOf at hio ⊢
+    rw [List.filter_append, List.length_append, hio]
+    rfl
+  · rw [hnid, hnl]; simp
+  · intro w
+    rw [hb' w, hbo w, bodyOf_append, hnl]
+  · intro k hk
+    by_cases hkl : k < l.length
+    · have hmem := opOf_some_mem g _ _ (hat k hkl)
+      rw [opOf_append_old g g' _ hnodes _ hmem, hat k hkl, List.getElem_append_left hkl]
+    · have hkeq : k = l.length := by
+        simp only [List.length_append, List.length_cons, List.length_nil] at hk
+        omega
+      subst hkeq
+      have e1 : g'.opOf (Nd.op (l.length + 1)) = some (.gate o) := by
+        rw [← hnl, opOf_append g g' _ hnodes, opOf_none_of_not_mem g _ hfreshN]
+        simp
+      rw [e1]
+      simp
 
 theorem build_fold (W : List Wire) : ∀ (todo : List Op) (g : MG) (done : List Op), BuildInv W g done →
     (∀ o ∈ todo, OpOK W o) →
@@ -414,7 +495,7 @@ theorem mem_wiresN (ne np nc : Nat) (w : Wire) :
 
 theorem buildInv_init (ne np nc : Nat) : BuildInv (wiresN ne np nc) (MG.init ne np nc) [] := by
   obtain ⟨h, _, _, _⟩ := initInv_init ne np nc
-  refine ⟨fun _ => [], h.rep, ?_, ?_, ?_, ?_, ?_⟩
+  refine ⟨fun _ => [], h.rep, ?_, ?_, ?_, ?_, ?_, h.noGates, ?_, h.nodeId, fun _ => rfl, ?_, h.trips⟩
   · intro w hw
     refine ⟨(h.regs w).1 hw, ?_⟩
     rw [hasNode_iff]
@@ -430,6 +511,10 @@ theorem buildInv_init (ne np nc : Nat) : BuildInv (wiresN ne np nc) (MG.init ne 
     · rw [h1, h.rep.inpOp w ‹_›] at ho; cases ho
     · rw [h1, h.rep.outOp w ‹_›] at ho; cases ho
   · exact h.names
+  · have := length_io_gate (MG.init ne np nc).nodes
+    rw [h.noGates, h.count] at this
+    simpa using this.symm
+  · intro k hk; cases hk
 
 /-- **the multigraph of a circuit is a family of register paths** and the operations along the path of register `w` are
     the operations of the circuit that touch `w`, in the order they were added -/
